@@ -22,8 +22,8 @@ from ..syncrun import SyncRun, run_schedule
 from ..syncmodel import replay_behaviour
 
 FLAGS = ('\\Deleted', '\\Seen', '\\Flagged')
-CLAUSE_PROP = {'C01': 'C01_', 'C02': 'C02_', 'C16': 'C16_', 'C17': 'C17_'}
-OBSERVER = {'C17': 'Trace_Recent'}
+CLAUSE_PROP = {'C01': 'C01_', 'C02': 'C02_', 'C16': 'C16_', 'C17': 'C17_', 'C04': 'C04_'}
+OBSERVER = {'C17': 'Trace_Recent', 'C04': 'Trace_Uids'}
 
 # deviations of the tree as it is now (kept in step with known/*.json: a fixed
 # defect is removed here, so the model then predicts the repaired behaviour)
@@ -52,7 +52,8 @@ def rand_cmd(rng, weights=None, recent_flags: bool = False) -> tuple:
         [('\\Recent',), ('\\Recent', '\\Seen')] if recent_flags else [])
     kinds = [('store', 30), ('fetch', 14), ('expunge', 10), ('uidexpunge', 4),
              ('noop', 8), ('append', 8), ('copy', 5), ('move', 6), ('search', 5),
-             ('check', 2), ('select', 3), ('examine', 2), ('close', 2)]
+             ('check', 2), ('select', 3), ('examine', 2), ('close', 2),
+             ('status', 0), ('rename', 0), ('create', 0), ('delete', 0)]
     kinds = [(k, w.get(k, v)) for k, v in kinds]
     total = sum(v for _, v in kinds)
     x = rng.uniform(0, total)
@@ -72,11 +73,20 @@ def rand_cmd(rng, weights=None, recent_flags: bool = False) -> tuple:
         return ('append', rng.choice(['INBOX', 'INBOX', 'Box']), rng.choice([1, 1, 2]),
                 rng.choice(app_flags))
     if k in ('copy', 'move'):
-        return (k, um, rand_set(rng, um), rng.choice(['Box', 'Box', 'INBOX']))
+        return (k, um, rand_set(rng, um), rng.choice(['Box', 'Box', 'INBOX', 'Box2']))
     if k == 'search':
         return ('search', um, rng.choice(['ALL', 'DELETED', 'UNSEEN', '1:*']))
     if k in ('select', 'examine'):
         return (k, rng.choice(['INBOX', 'INBOX', 'INBOX', 'Box']))
+    if k == 'status':
+        return ('status', rng.choice(['INBOX', 'Box', 'Box2']))
+    if k == 'rename':
+        return ('rename',) + rng.choice([('Box', 'Box2'), ('Box2', 'Box'), ('INBOX', 'Box2'),
+                                         ('INBOX', 'Old'), ('Old', 'Box')])
+    if k == 'create':
+        return ('create', rng.choice(['Box', 'Box2']))
+    if k == 'delete':
+        return ('delete', rng.choice(['Box', 'Box2', 'Old']))
     return (k,)
 
 
@@ -261,6 +271,12 @@ def main(prop: str, tier: str) -> int:
                 rng, nsess, rng.randint(3, 8), idle=True, idle_prob=0.7,
                 gate_idlers=rng.random() < 0.7, ro_prob=0.1,
                 weights={'append': 25, 'expunge': 15, 'select': 0, 'examine': 0, 'close': 0})
+        elif prop == 'C04':
+            sessions, drive = random_schedule(
+                rng, nsess, rng.randint(4, 10), idle=False, ro_prob=0.1, initial_select=0.7,
+                weights={'append': 24, 'copy': 14, 'move': 14, 'expunge': 10, 'store': 8,
+                         'status': 10, 'select': 8, 'rename': 7, 'create': 3, 'delete': 3,
+                         'fetch': 3, 'search': 0, 'check': 0, 'uidexpunge': 3})
         elif prop == 'C17':
             sessions, drive = random_schedule(
                 rng, 3 if rng.random() < 0.5 else 2, rng.randint(4, 10), idle=False,
